@@ -12,13 +12,17 @@ if err:
     print(err); sys.exit(1)
 ok, log = vlib.coq_make([], timeout=7200)
 if not ok:
-    print(log[-8000:]); sys.exit(1)
+    # every check rebuilds its own dependency cone and reports what no longer
+    # checks; setup only warms the build, so a failure here is reported, not fatal
+    print("WARNING: full coq build incomplete:\n" + log[-4000:])
+bad = 0
 for d in sorted(glob.glob(os.path.join(vlib.HARNESS, "cmd", "*"))):
     name = os.path.basename(d)
     if name == "goextract":
         continue
     exe, e = vlib.build_go(name)
     if e:
-        print("harness %s failed to build:\n%s" % (name, e)); sys.exit(1)
-print("setup ok")
+        bad += 1
+        print("WARNING: harness %s failed to build:\n%s" % (name, e[-2000:]))
+print("setup done (coq %s, %d harness build failures)" % ("ok" if ok else "incomplete", bad))
 PY
